@@ -1278,6 +1278,8 @@ class _IntMeta(type):
             return x._asint()
         if _isinstance(x, IntToken):
             return x.v
+        if _isinstance(x, _str) and x[:1] == TOKEN_OPEN and x[-1:] == TOKEN_CLOSE:
+            return E().registry['tokens'][_int(x[1:-1])]
         if _isinstance(x, SymStr):
             return E().registry_int(x, base)
         if _isinstance(x, SymFloatBase):
@@ -1575,6 +1577,91 @@ class unshimmed:
         for m, k, v in self.vals:
             m.__dict__[k] = v
         Engine.cur = self.eng
+
+
+# ---------------------------------------------------------------------------
+# int -> int lookup tables with a symbolic key: a select (If-chain), not 2^n forks
+# ---------------------------------------------------------------------------
+class SymLookupDict(dict):
+    """dict subclass, identical on concrete keys.  With a SymInt key, membership is one
+    branch and the value is an If-chain over the keys inside the key's interval."""
+
+    def _cands(self, k):
+        return [(kk, vv) for kk, vv in self.items() if k.lo <= kk <= k.hi]
+
+    def _member(self, k):
+        c = self._cands(k)
+        if not c:
+            return False, c
+        if _len(c) == k.hi - k.lo + 1:
+            return True, c
+        return E().branch(z3.Or([k.e == kk for kk, _v in c])), c
+
+    def __getitem__(self, k):
+        if not _isinstance(k, SymInt):
+            return dict.__getitem__(self, k)
+        ok, c = self._member(k)
+        if not ok:
+            raise KeyError(k)
+        lo = min(v for _k, v in c)
+        hi = max(v for _k, v in c)
+        if lo == hi:
+            return lo
+        w = need(lo, hi)
+        e = z3.BitVecVal(c[-1][1], w)
+        for kk, vv in reversed(c[:-1]):
+            e = z3.If(k.e == kk, z3.BitVecVal(vv, w), e)
+        return SymInt(e, lo, hi)
+
+    def __contains__(self, k):
+        if not _isinstance(k, SymInt):
+            return dict.__contains__(self, k)
+        return self._member(k)[0]
+
+    def get(self, k, default=None):
+        if not _isinstance(k, SymInt):
+            return dict.get(self, k, default)
+        try:
+            return self[k]
+        except KeyError:
+            return default
+
+
+def patch_lookup_dicts(root, minsize=4, limit=100000):
+    """replace int->int dict attributes reachable from root by SymLookupDict copies"""
+    seen = set()
+    stack = [root]
+    n = 0
+    patched = 0
+    while stack:
+        o = stack.pop()
+        if id(o) in seen:
+            continue
+        seen.add(id(o))
+        n += 1
+        if n > limit:
+            break
+        if _isinstance(o, dict):
+            stack.extend(o.values())
+            continue
+        if _isinstance(o, (list, tuple)):
+            stack.extend(o)
+            continue
+        d = getattr(o, '__dict__', None)
+        if d is None or _isinstance(o, (type, type(patch_lookup_dicts))):
+            continue
+        for k, v in list(d.items()):
+            if (type(v) is dict and _len(v) >= minsize
+                    and all(type(a) is _int and type(b) is _int for a, b in v.items())):
+                d[k] = SymLookupDict(v)
+                patched += 1
+            else:
+                stack.append(v)
+        for cls in type(o).__mro__:
+            for k, v in list(vars(cls).items()):
+                if not k.startswith('__') and not callable(v) and not _isinstance(v, (property, staticmethod, classmethod)):
+                    stack.append(v)
+    return patched
 
 
 # ---------------------------------------------------------------------------
